@@ -244,8 +244,15 @@ class Session:
   def _op_call_inner(self, op, ent, args, kwargs, ran0):
     gin = self.gin
     with contextlib.ExitStack() as stack:
-      for a in op['enter']:
-        stack.enter_context(gin.config_scope(self.scope_arg(a)))
+      if op.get('_precreate'):
+        # the context managers are made first, all of them outside any scope, and entered afterwards: a scope is
+        # resolved when it is entered
+        cms = [gin.config_scope(self.scope_arg(a)) for a in op['enter']]
+        for cm in cms:
+          stack.enter_context(cm)
+      else:
+        for a in op['enter']:
+          stack.enter_context(gin.config_scope(self.scope_arg(a)))
       if '_bad_enter' in op:
         try:
           with gin.config_scope(op['_bad_enter']):
@@ -458,7 +465,14 @@ class Session:
         raise HookError('hook raises')
       if op['ret'] is None:
         return None
-      return {self.key_for(ks): decode(v, gin) for ks, v in op['ret']}
+      ret = {self.key_for(ks): decode(v, gin) for ks, v in op['ret']}
+      if op.get('_mapping') == 'proxy':     # any mapping will do as a hook's result
+        import types
+        return types.MappingProxyType(ret)
+      if op.get('_mapping') == 'chain':
+        import collections
+        return collections.ChainMap(ret)
+      return ret
 
     gin.config.register_finalize_hook(hook)
 
